@@ -269,7 +269,7 @@ def range_surface_cases(rng):
     constant / value-at-points combinations of the model's min and max depth.  The surfaces are affine (every corner listed with the value of one affine
     function), so the local bound at a query point is that function whatever triangulation is used."""
     for kind in ("continental plate", "oceanic plate", "mantle layer"):
-        for what in ("T", "C", "V", "G"):
+        for what in ("T", "C", "V", "G") + (("W",) if kind == "oceanic plate" else ()):
             for combo in ("const/const", "const/surface", "surface/const", "surface/surface"):
                 w = {"version": "1.1", "features": []}
                 gl = G(rng, w)
@@ -289,7 +289,8 @@ def range_surface_cases(rng):
                 else:
                     fmx, emx = (lambda q, v=mx0: v), mx0
                 m = {"min depth": emn, "max depth": emx}
-                name = "%s %s range %s" % (kind, {"T": "temperature uniform", "C": "composition uniform", "V": "velocity uniform raw", "G": "grains uniform"}[what], combo)
+                name = "%s %s range %s" % (kind, {"T": "temperature uniform", "C": "composition uniform", "V": "velocity uniform raw", "G": "grains uniform",
+                                                  "W": "tian water content (replace wipes the other compositions)"}[what], combo)
                 exp = []
                 pts = []
                 for _ in range(6):
@@ -304,6 +305,13 @@ def range_surface_cases(rng):
                 elif what == "C":
                     m.update({"model": "uniform", "compositions": [1], "fractions": [0.75]}); f["composition models"] = [m]
                     exp = [(q, d, (2, 1, 0), [0.75 if ins else 0.0], ins, name) for (q, d, ins) in pts]
+                elif what == "W":
+                    # the water-content model lists composition 0 only; with the default operation `replace` every OTHER composition is set to 0 inside the model's own
+                    # (local) range and left alone outside it: composition 1 was painted 0.75 over the whole feature by the model before it
+                    m.update({"model": "tian water content", "compositions": [0], "lithology": "peridotite", "initial water content": 2, "cutoff pressure": 10})
+                    f["temperature models"] = [{"model": "uniform", "temperature": 900}]
+                    f["composition models"] = [{"model": "uniform", "compositions": [1], "fractions": [0.75]}, m]
+                    exp = [(q, d, (2, 1, 0), [0.0 if ins else 0.75], ins, name) for (q, d, ins) in pts if 0 <= d <= 500e3]
                 elif what == "V":
                     m.update({"model": "uniform raw", "velocity": [0.01, -0.02, 0.03]}); f["velocity models"] = [m]
                     exp = [(q, d, (5, 0, 0), [0.01, -0.02, 0.03] if ins else [0.0, 0.0, 0.0], ins, name) for (q, d, ins) in pts]
